@@ -548,3 +548,275 @@ def build_T13w(tree):
 
 
 TARGETS['T13w'] = {'file': 'spatial.py', 'build': build_T13w}
+
+
+# ---------------------------------------------------------------------------------------------------------------------------
+# TC10f  "forwarding and formulas": what the hand-written model of the transformers, of create_affine_matrix_from_components and
+# of compute_tile_positions_per_frame copies from the source by hand:
+#   * the defaults of create_affine_matrix_from_attributes / _create_inv_affine_matrix_from_attributes / create_rotation_matrix;
+#   * for every transformer constructor: which constructor argument reaches which keyword of the affine constructors and of
+#     _are_images_coplanar (a polymorphic Lean function per call: a swapped or extra argument changes it), and the order of the
+#     factors of the matrix product (a Lean function over an abstract product);
+#   * the keywords _create_inv_affine_matrix_from_attributes passes to create_rotation_matrix (the others take the defaults);
+#   * create_affine_matrix_from_components: centre index, position from the centre, scaled direction (scalar readings);
+#   * compute_tile_positions_per_frame: pixel index of a tile, the 1-based shift, that positions are computed BEFORE the shift,
+#     the arguments of the transformer.
+# lean/HdVerif/Proofs/AffineTie.lean proves that the hand-written definitions are equal to twins built from these.
+
+from targets_C11 import _call_shape, _one, scalar_def  # noqa: E402
+
+_GEOM_FLAGS = {'self', 'round_output', 'drop_slice_index', 'drop_slice_coord'}
+_AFFINE_SLOTS = (('image_position', True), ('image_orientation', True), ('pixel_spacing', True), ('spacing_between_slices', False))
+_COPLANAR_SLOTS = (('image_position_a', True), ('image_orientation_a', True), ('image_position_b', True), ('image_orientation_b', True))
+_ROTATION_SLOTS = (('image_orientation', True), ('index_convention', False), ('slices_first', False), ('handedness', False),
+                   ('pixel_spacing', False), ('spacing_between_slices', False))
+_ROTATION_ABSENT_T = {'index_convention': 'List Char', 'slices_first': 'Bool', 'handedness': 'Bool', 'pixel_spacing': 'Rat',
+                      'spacing_between_slices': 'Rat'}
+
+
+def _forward_def(fn, call, slots, lean_name, doc, absent_types=None):
+    """the keyword call `call` inside `fn` as a polymorphic Lean function of fn's geometry parameters: one component per callee
+    slot (`some v` / `none` for optional ones)"""
+    if not isinstance(call, ast.Call) or call.args:
+        raise Unsupported(f'{lean_name}: keyword-only call expected: {ast.unparse(call)}')
+    params = [a.arg for a in fn.args.args if a.arg not in _GEOM_FLAGS]
+    kw = {}
+    for k in call.keywords:
+        if k.arg is None or k.arg in kw:
+            raise Unsupported(f'{lean_name}: unsupported keyword in {ast.unparse(call)}')
+        if not (isinstance(k.value, ast.Name) and k.value.id in params):
+            raise Unsupported(f'{lean_name}: {k.arg}={ast.unparse(k.value)} is not a constructor argument')
+        kw[k.arg] = k.value.id
+    unknown = set(kw) - {s for s, _ in slots}
+    if unknown:
+        raise Unsupported(f'{lean_name}: keywords {sorted(unknown)} are not modelled')
+    tv = {p: f'T{i}' for i, p in enumerate(params)}
+    comps, types = [], []
+    for s, required in slots:
+        if s in kw:
+            comps.append(kw[s] if required else f'some {kw[s]}')
+            types.append(tv[kw[s]] if required else f'Option {tv[kw[s]]}')
+        elif required:
+            raise Unsupported(f'{lean_name}: required argument {s} is not passed')
+        else:
+            comps.append('none')
+            t = (absent_types or {}).get(s, 'Rat')
+            types.append(f'Option ({t})' if ' ' in t else f'Option {t}')
+    sig = ' '.join(f'({p} : {tv[p]})' for p in params)
+    tvs = ' '.join(tv[p] for p in params)
+    return (f'/-- {doc} -/\ndef {lean_name} {{{tvs} : Type}} {sig} :\n    {" × ".join(types)} :=\n  ({", ".join(comps)})')
+
+
+def _product_def(expr, names, lean_name, doc):
+    """a product of named matrices (np.dot(a, b), a @ b, nested) as a Lean function over an abstract product"""
+    used = []
+
+    def go(e):
+        if isinstance(e, ast.Name):
+            if e.id not in names:
+                raise Unsupported(f'{lean_name}: unexpected factor {e.id}')
+            used.append(e.id)
+            return e.id
+        if isinstance(e, ast.BinOp) and isinstance(e.op, ast.MatMult):
+            return f'(mul {go(e.left)} {go(e.right)})'
+        if isinstance(e, ast.Call) and ast.unparse(e.func) == 'np.dot' and len(e.args) == 2 and not e.keywords:
+            return f'(mul {go(e.args[0])} {go(e.args[1])})'
+        raise Unsupported(f'{lean_name}: not a matrix product: {ast.unparse(e)}')
+    body = go(expr)
+    if sorted(used) != sorted(names):
+        raise Unsupported(f'{lean_name}: factors {used}, expected {list(names)}')
+    return f'/-- {doc} -/\ndef {lean_name} {{M : Type}} (mul : M → M → M) {" ".join(f"({n} : M)" for n in names)} : M :=\n  {body}'
+
+
+def _local_assign(fn, name):
+    return _one((n for n in ast.walk(fn) if isinstance(n, ast.Assign) and len(n.targets) == 1
+                 and ast.unparse(n.targets[0]) == name), f'{fn.name}: assignment of {name}')
+
+
+def _defaults(fn):
+    args = fn.args.args
+    return {a.arg: d for a, d in zip(args[len(args) - len(fn.args.defaults):], fn.args.defaults)}
+
+
+def _handed(node, what):
+    t = ast.unparse(node)
+    if t == 'AxisHandedness.RIGHT_HANDED':
+        return 'true'
+    if t == 'AxisHandedness.LEFT_HANDED':
+        return 'false'
+    raise Unsupported(f'{what}: handedness default {t}')
+
+
+def _conv(node, what):
+    if not isinstance(node, ast.Tuple):
+        raise Unsupported(f'{what}: index_convention default {ast.unparse(node)}')
+    return '[' + ', '.join(_ch(_enum_letter(e)) for e in node.elts) + ']'
+
+
+def _boolc(node, what):
+    if isinstance(node, ast.Constant) and isinstance(node.value, bool):
+        return str(node.value).lower()
+    raise Unsupported(f'{what}: not a bool literal: {ast.unparse(node)}')
+
+
+def build_TC10f(tree):
+    out, spans = [], []
+    # ---- defaults
+    fa = find_func(tree, 'create_affine_matrix_from_attributes')
+    d = _defaults(fa)
+    if set(d) != {'spacing_between_slices', 'index_convention', 'slices_first', 'handedness'}:
+        raise Unsupported(f'create_affine_matrix_from_attributes: optional parameters {sorted(d)}')
+    out.append('/-- defaults of create_affine_matrix_from_attributes -/\n'
+               f'def affineDefaultSpacingBetweenSlices : Rat := {_rat(d["spacing_between_slices"])}\n'
+               f'def affineDefaultConvention : List Char := {_conv(d["index_convention"], fa.name)}\n'
+               f'def affineDefaultSlicesFirst : Bool := {_boolc(d["slices_first"], fa.name)}\n'
+               f'def affineDefaultRightHanded : Bool := {_handed(d["handedness"], fa.name)}')
+    spans.append(fa.args)
+    fi = find_func(tree, '_create_inv_affine_matrix_from_attributes')
+    d = _defaults(fi)
+    if set(d) != {'spacing_between_slices'}:
+        raise Unsupported(f'_create_inv_affine_matrix_from_attributes: optional parameters {sorted(d)}')
+    out.append('/-- default of _create_inv_affine_matrix_from_attributes -/\n'
+               f'def invAffineDefaultSpacingBetweenSlices : Rat := {_rat(d["spacing_between_slices"])}')
+    spans.append(fi.args)
+    fr = find_func(tree, 'create_rotation_matrix')
+    d = _defaults(fr)
+    if set(d) != {'index_convention', 'slices_first', 'handedness', 'pixel_spacing', 'spacing_between_slices'}:
+        raise Unsupported(f'create_rotation_matrix: optional parameters {sorted(d)}')
+    out.append('/-- defaults of create_rotation_matrix -/\n'
+               f'def rotationDefaultConvention : List Char := {_conv(d["index_convention"], fr.name)}\n'
+               f'def rotationDefaultSlicesFirst : Bool := {_boolc(d["slices_first"], fr.name)}\n'
+               f'def rotationDefaultRightHanded : Bool := {_handed(d["handedness"], fr.name)}\n'
+               f'def rotationDefaultPixelSpacing : Rat := {_rat(d["pixel_spacing"])}\n'
+               f'def rotationDefaultSpacingBetweenSlices : Rat := {_rat(d["spacing_between_slices"])}')
+    spans.append(fr.args)
+    # ---- the inverse constructor: rotation call, inverse, translation
+    a = _local_assign(fi, 'rotation')
+    if ast.unparse(a.value.func) != 'create_rotation_matrix':
+        raise Unsupported('_create_inv_affine_matrix_from_attributes: rotation is not create_rotation_matrix(...)')
+    out.append(_forward_def(fi, a.value, _ROTATION_SLOTS, 'invAffineRotationCall',
+                            '_create_inv_affine_matrix_from_attributes: arguments of create_rotation_matrix (none = its default)',
+                            _ROTATION_ABSENT_T))
+    spans.append(a)
+    a = _local_assign(fi, 'inv_rotation')
+    _call_shape(a.value, 'np.linalg.inv', ['rotation'], {}, 'inv_rotation')
+    spans.append(a)
+    ret = _one((n for n in fi.body if isinstance(n, ast.Return)), 'return of the inverse constructor')
+    _call_shape(ret.value, '_stack_affine_matrix', [], {'rotation': 'inv_rotation', 'translation': '-np.dot(inv_rotation, translation)'},
+                'return of the inverse constructor')
+    spans.append(ret)
+    a = _local_assign(fi, 'translation')
+    if ast.unparse(a.value) != 'np.array([float(x) for x in image_position], dtype=float)':
+        raise Unsupported(f'inverse constructor: translation is {ast.unparse(a.value)}')
+    spans.append(a)
+    # ---- transformer constructors
+    AFF, INV = 'create_affine_matrix_from_attributes', '_create_inv_affine_matrix_from_attributes'
+
+    def ctor_call(fn, target, callee, lean, what):
+        a = _local_assign(fn, target)
+        if not isinstance(a.value, ast.Call) or ast.unparse(a.value.func) != callee:
+            raise Unsupported(f'{what}: {target} is not {callee}(...)')
+        out.append(_forward_def(fn, a.value, _AFFINE_SLOTS, lean, f'{what}: arguments of {callee} (none = its default)'))
+        spans.append(a)
+
+    def coplanar(fn, lean, what):
+        iff = _one((n for n in fn.body if isinstance(n, ast.If) and '_are_images_coplanar' in ast.unparse(n.test)), f'{what}: coplanarity test')
+        if not (isinstance(iff.test, ast.UnaryOp) and isinstance(iff.test.op, ast.Not) and len(iff.body) == 1
+                and isinstance(iff.body[0], ast.Raise) and ast.unparse(iff.body[0].exc.func) == 'ValueError' and not iff.orelse):
+            raise Unsupported(f'{what}: coplanarity test is not `if not _are_images_coplanar(...): raise ValueError`')
+        out.append(_forward_def(fn, iff.test.operand, _COPLANAR_SLOTS, lean, f'{what}: arguments of _are_images_coplanar'))
+        spans.append(iff)
+
+    def product(fn, names, lean, what):
+        a = _local_assign(fn, 'self._affine')
+        out.append(_product_def(a.value, names, lean, f'{what}: self._affine as a product of the named matrices'))
+        spans.append(a)
+
+    fn = find_func(tree, 'PixelToReferenceTransformer.__init__')
+    ctor_call(fn, 'self._affine', AFF, 'pixToRefCall', 'PixelToReferenceTransformer')
+    fn = find_func(tree, 'ReferenceToPixelTransformer.__init__')
+    ctor_call(fn, 'self._affine', INV, 'refToPixCall', 'ReferenceToPixelTransformer')
+    fn = find_func(tree, 'PixelToPixelTransformer.__init__')
+    coplanar(fn, 'pixToPixCoplanarCall', 'PixelToPixelTransformer')
+    ctor_call(fn, 'pix_to_ref', AFF, 'pixToPixForwardCall', 'PixelToPixelTransformer (pix_to_ref)')
+    ctor_call(fn, 'ref_to_pix', INV, 'pixToPixInverseCall', 'PixelToPixelTransformer (ref_to_pix)')
+    product(fn, ['pix_to_ref', 'ref_to_pix'], 'pixToPixProduct', 'PixelToPixelTransformer')
+    fn = find_func(tree, 'ImageToReferenceTransformer.__init__')
+    ctor_call(fn, 'affine', AFF, 'imgToRefCall', 'ImageToReferenceTransformer')
+    product(fn, ['affine', 'correction_affine'], 'imgToRefProduct', 'ImageToReferenceTransformer')
+    fn = find_func(tree, 'ReferenceToImageTransformer.__init__')
+    ctor_call(fn, 'affine', INV, 'refToImgCall', 'ReferenceToImageTransformer')
+    product(fn, ['affine', 'correction_affine'], 'refToImgProduct', 'ReferenceToImageTransformer')
+    fn = find_func(tree, 'ImageToImageTransformer.__init__')
+    coplanar(fn, 'imgToImgCoplanarCall', 'ImageToImageTransformer')
+    ctor_call(fn, 'pix_to_ref', AFF, 'imgToImgForwardCall', 'ImageToImageTransformer (pix_to_ref)')
+    ctor_call(fn, 'ref_to_pix', INV, 'imgToImgInverseCall', 'ImageToImageTransformer (ref_to_pix)')
+    product(fn, ['pix_to_im', 'ref_to_pix', 'pix_to_ref', 'im_to_pix'], 'imgToImgProduct', 'ImageToImageTransformer')
+    # ---- create_affine_matrix_from_components
+    fn = find_func(tree, 'create_affine_matrix_from_components')
+    a = _local_assign(fn, 'center_index')
+    out.append(scalar_def(a.value, 'centerIndex', [('extent', 'int')], {'shape_arr': 'extent'},
+                          'create_affine_matrix_from_components: index of the array centre along an axis of this extent'))
+    spans.append(a)
+    a = _one((n for n in ast.walk(fn) if isinstance(n, ast.Assign) and ast.unparse(n.targets[0]) == 'position_arr'
+              and 'center_position_arr' in ast.unparse(n.value)), 'position_arr from the centre')
+    out.append(scalar_def(a.value, 'centerToPosition', [('center', 'rat'), ('moved', 'rat')],
+                          {'center_position_arr': 'center', 'scaled_direction @ center_index.T': 'moved'},
+                          'create_affine_matrix_from_components: a coordinate of the position from that of the centre and of '
+                          '`scaled_direction @ center_index`'))
+    spans.append(a)
+    a = _local_assign(fn, 'scaled_direction')
+    out.append(scalar_def(a.value, 'scaledDirectionEntry', [('entry', 'rat'), ('spacing', 'rat')], {'direction_arr': 'entry'},
+                          'create_affine_matrix_from_components: an entry of the scaled direction (numpy broadcasting: column j '
+                          'with spacing[j])'))
+    spans.append(a)
+    a = _local_assign(fn, 'affine')
+    _call_shape(a.value, '_stack_affine_matrix', ['scaled_direction', 'position_arr'], {}, 'affine (components)')
+    spans.append(a)
+    # ---- compute_tile_positions_per_frame
+    fn = find_func(tree, 'compute_tile_positions_per_frame')
+    a = _local_assign(fn, 'tile_indices')
+    if ast.unparse(a.value) != "np.stack(np.meshgrid(range(tiles_per_column), range(tiles_per_row), indexing='xy')).reshape(2, -1).T":
+        raise Unsupported(f'tile_indices is {ast.unparse(a.value)}')
+    spans.append(a)
+    a = _local_assign(fn, 'pixel_indices')
+    v = a.value
+    if not (isinstance(v, ast.BinOp) and isinstance(v.op, ast.Mult) and ast.unparse(v.left) == 'tile_indices'
+            and isinstance(v.right, ast.List) and len(v.right.elts) == 2
+            and all(isinstance(e, ast.Name) and e.id in ('columns', 'rows') for e in v.right.elts)):
+        raise Unsupported(f'pixel_indices is {ast.unparse(v)}')
+    e0, e1 = (e.id for e in v.right.elts)
+    out.append('/-- compute_tile_positions_per_frame: 0-based (column, row) pixel index of the tile in tile column / tile row '
+               '(tile_indices * [.., ..]) -/\n'
+               'def tilePixelIndex (tile_column tile_row columns rows : Int) : Int × Int :=\n'
+               f'  (tile_column * {e0}, tile_row * {e1})')
+    spans.append(a)
+    i_pix = fn.body.index(a)
+    tr = _local_assign(fn, 'transformer')
+    if ast.unparse(tr.value.func) != 'PixelToReferenceTransformer':
+        raise Unsupported('tiles: transformer is not a PixelToReferenceTransformer')
+    out.append(_forward_def(fn, tr.value, _AFFINE_SLOTS[:3], 'tileTransformerCall',
+                            'compute_tile_positions_per_frame: arguments of PixelToReferenceTransformer'))
+    spans.append(tr)
+    ip = _local_assign(fn, 'image_positions')
+    _call_shape(ip.value, 'transformer', ['pixel_indices'], {}, 'image_positions (tiles)')
+    spans.append(ip)
+    aug = _one((n for n in fn.body if isinstance(n, ast.AugAssign) and ast.unparse(n.target) == 'pixel_indices'), 'pixel_indices += ...')
+    if not isinstance(aug.op, ast.Add):
+        raise Unsupported(f'tiles: {ast.unparse(aug)}')
+    out.append(scalar_def(ast.BinOp(left=ast.Name(id='index', ctx=ast.Load()), op=ast.Add(), right=aug.value), 'tileOneBased',
+                          [('index', 'int')], {}, 'compute_tile_positions_per_frame: the reported offset of a 0-based pixel index'))
+    spans.append(aug)
+    i_tr, i_aug = fn.body.index(ip), fn.body.index(aug)
+    if not i_pix < i_tr:
+        raise Unsupported('tiles: positions computed before the pixel indices')
+    out.append('/-- compute_tile_positions_per_frame: the positions are computed from the pixel indices BEFORE these are shifted -/\n'
+               f'def tilePositionsBeforeShift : Bool := {str(i_tr < i_aug).lower()}')
+    ret = _one((n for n in fn.body if isinstance(n, ast.Return)), 'return (tiles)')
+    if ast.unparse(ret.value) != 'list(zip(pixel_indices.tolist(), image_positions.tolist()))':
+        raise Unsupported(f'tiles return {ast.unparse(ret.value)}')
+    spans.append(ret)
+    return '\n\n'.join(out), span_sha(spans)
+
+
+TARGETS['TC10f'] = {'file': 'spatial.py', 'build': build_TC10f}
